@@ -875,7 +875,7 @@ def fs_level_cases_c19(rng, quick):
     for q in (queries[:3] if quick else queries):
         for pub in (0, 1):
             d = "d.1l10.%s.~" % fq(q) if pub else "d.1l10.~.%s" % fq(q)
-            ops = [d, "g.1l10", "g.2l10", "g.3", "g.4l0", "t", "g.1l10", "u", "g.2l10"]
+            ops = [d, "g.1l10", "g.2l10", "g.3", "g.4l0", "g.2l30", "g.2l10", "t", "g.1l10", "u", "g.2l10"]
             cases.append(fs_line(masked, own, "US", cands, ops, anon=True))
     return cases
 
